@@ -476,8 +476,12 @@ open RowsReuse Marshal in
     earlier rows contained: null after a value is nil / the zero value, a shorter value after a longer one is the
     shorter value, a value after null is the value. The first row with a cell that does not decode into its
     destination's type ends the loop: Scan returns false, iter.err is set, the row is not counted.
-    `hins`: no cell falls under the excluded condition `sensitive` (an EMPTY cell of a text-family column into an
-    unnamed `[]byte`; `*[n]T` / struct destinations, whose parts are filled in place). -/
+    `hins`: no cell falls under the excluded condition `sensitive` (C04Reuse.lean): an EMPTY cell of a text-family
+    column into an unnamed `[]byte` (KF-C04-6); a non-empty UDT value into a struct when its fields do NOT write every
+    field of the struct (fewer fields than the type, a struct field the type does not name: KF-C04-7) or a written
+    field is itself excluded; a list / set into `*[n]T` whose element type can be excluded (`[n][]byte` of a
+    text-family element, nested `[n]T` / structs); `[n]T` / structs on other column types. A struct whose every field
+    is written and a `*[n]T` of stateless elements ARE inside the claim. -/
 theorem C04_rows_independent_partial (p : Nat) (m : Meta) (rs : List (List Cell)) (tys : List GoTy) (vals0 : List GoVal)
     (hcols : ∀ n g, m.cols ≠ .omitted n g) (hw : wfRows (colTypes m.cols) rs = true)
     (hW : totalWidth (colTypes m.cols) = tys.length) (hv : vals0.length = tys.length)
@@ -656,7 +660,7 @@ theorem C04_cex_udt_struct_keeps_stale_field :
     simp [cexUdtFull, ValueSpec.shorter]
   · simp [unmarshalFresh, unmarshal, withPtr, stripPtr, cexUdt, cexUdtStruct, cexUdtShort, unmarshalBase, dataBytes,
       unmarshalUdtStruct, zeroOf, zeroOfs, ValueSpec.shorter, r1, l1, us_int, d5]
-  · simp [unmarshalInto, cexUdt, cexUdtStruct, cexUdtShort, intoBase, dataBytes, udtInto, partsOf, ValueSpec.shorter, r1, l1, b5]
+  · simp [unmarshalInto, cexUdt, cexUdtStruct, cexUdtShort, intoBase, dataBytes, udtInto, partsOf, fit, ValueSpec.shorter, r1, l1, b5]
 
 /-! ## 6. non-vacuity -/
 
